@@ -10,10 +10,15 @@
 // signature bytes under forged fields, responses accepted for one submission or endpoint served
 // for another).  get-entries answers and submitted chains include certificates with tolerated
 // quirks (non-fatal X.509 parse errors; candidates probed against the parser, fixtures_test.go).
+// The precertificate entry a response is held to is made BY HAND from what the harness's PKI
+// knows (final-certificate twin issued by the real CA; fixtures_test.go issuePre), also for
+// chains through a Precertificate Signing Certificate; the log also signs every wrongly derived
+// entry.  A temporal client with SEVERAL shards lives through a history of fan-out (get-roots,
+// a fault on every shard position) and routed (add-chain by NotAfter) calls (multishard_test.go).
 //
 // One case = the HTTP outcome(s) the transport produced (reconstructed from the transport's own
 // log), the oracle tables (signature pairs that verify under the configured key, verified HERE
-// with crypto/ecdsa / crypto/rsa; the entry derived from the submitted chain; X.509 parse classes)
+// with crypto/ecdsa / crypto/rsa; the entry of the submitted chain; X.509 parse classes)
 // and the result the implementation returned.  The Coq side (Client/ClientCase.v) evaluates the
 // model on the same inputs.  PropOK is the property's sentence on the observations alone.
 //
@@ -50,6 +55,7 @@ func TestHarness(t *testing.T) {
 		genEntries(t, r, w, fx, rep)
 		genOthers(t, r, w, fx, rep)
 		genHistories(t, r, w, fx, configs, rep)
+		genMultiShard(t, r, w, fx, rep)
 	}
 	w.Close()
 }
